@@ -11,7 +11,8 @@ from .. import refsem as R
 
 ID = 'C10'
 LEVEL = 'exploration'
-RULE = ('Hypothesis arguments (generic / modal-heavy / quantifier-heavy; first-order modal ones included) x logic, then '
+RULE = ('Hypothesis arguments (generic / modal-heavy / quantifier-heavy / biased to validity by instantiating standard valid '
+        'forms; first-order modal ones included) x logic, then '
         'metamorphic variants: (a) the conclusion inserted among the premises at a drawn position => must be valid; '
         '(b) a drawn extra premise added to an argument found valid => must not become invalid with a limit-free open '
         'branch; (c) injective renamings of sentence letters, constants, user predicates (arity kept) and bound '
@@ -145,11 +146,16 @@ def run_shard(shard, acc):
               phases=[Phase.generate], suppress_health_check=list(HealthCheck))
     @given(st.data())
     def body(data):
-        pname = ('generic', 'modal-heavy', 'quant-heavy')[data.draw(st.integers(0, 2))]
+        pname = ('generic', 'modal-heavy', 'quant-heavy', 'valid-biased', 'valid-biased')[data.draw(st.integers(0, 4))]
         pred = {'modal-heavy': R.is_modal, 'quant-heavy': R.is_quantified}.get(pname)
         logic = data.draw(gen.logic_name(pred))
-        prof = PROFILES[pname].for_logic(logic)
-        prem, con = data.draw(gen.argument(prof, 3))
+        prof = PROFILES['modal-heavy' if (pname == 'valid-biased' and R.is_modal(logic)) else pname if pname in PROFILES else 'generic'].for_logic(logic)
+        if pname == 'valid-biased':
+            # monotonicity only bites on valid arguments: instances of standard valid forms in monotone contexts
+            from . import c09
+            prem, con = c09.wrapped_valid(data, logic)
+        else:
+            prem, con = data.draw(gen.argument(prof, 3))
         case = prover.mk_case(logic, prem, con, group=data.draw(st.booleans()), rank=data.draw(st.booleans()),
                               order=data.draw(st.integers(0, 7)), max_steps=MAX_STEPS)
         case['transforms'] = dict(
